@@ -1,8 +1,25 @@
+(* C12: transaction and blob share ranges are exact.
+
+   1. arithmetic core: the counter-based start/end of FindTxShareRange (with its
+      "remainder == 0" adjustment) are sidx start and sidx (end - 1) + 1;
+   2. find_tx_share_range / tx_share_range as total functional equations (errors exactly
+      outside [0, #txs + #pfbs), PFBs over their real wrapped size, shifted by the number
+      of tx shares);
+   3. the compact splitter's recorded ranges (counting invariant of the write loop);
+   4. blob_share_range as a total functional equation;
+   5. the unit lies inside its range; with C11 (SubrangeProofs) and the writer theorem
+      (CompactWriterProofs): parsing just the range yields the transaction.
+   Not covered here: where the two compact sequences lie inside the square (write_square:
+   the tx sequence at share 0, the PFB sequence right after it) -- that is C01/C10; and that
+   the recorded blob index is where the blob's shares really are -- that is C04
+   (Proofs/BlobLayoutProofs.v). *)
 From Coq Require Import List Arith NArith ZArith Lia Bool.
 From Coq Require Import ZifyN ZifyNat ZifyBool.
 From GS.Model Require Import Base Varint Namespace ShareFmt Blob Sparse Compact Counter Arith Proto Builder.
 From GS.Spec Require Import ShareSpec CompactSpec.
 From GS.Proofs Require Import BaseLemmas VarintProofs CounterProofs.
+(* used only by the last section (parsing the range): C11 and the writer = closed form *)
+From GS.Proofs Require SubrangeProofs CompactWriterProofs.
 Import ListNotations.
 Ltac Zify.zify_post_hook ::= Z.div_mod_to_equations.
 Open Scope nat_scope.
@@ -396,4 +413,630 @@ Proof.
   destruct (write_square _ _ _ _ _) as [sq0| |] eqn:Ew; cbn [bind] in E; try discriminate.
   inversion E; subst. cbn [bd_txs bd_done bd_pfbs]. split; [reflexivity|]. split; [reflexivity|].
   exists txw0, txw, pfbw0, pfbw, (bl_shares st), (bl_nrs st). repeat split; try assumption; reflexivity.
+Qed.
+
+(* ---- 3. the splitter's own ranges ---- *)
+
+(* counting invariant of the compact splitter between writes and inside the write loop:
+   j complete shares are stacked, the stream written so far has L bytes, the pending
+   share holds the L - coff j bytes after its header (possibly full) *)
+Definition sinv (c : csplitter) (j L : nat) : Prop :=
+  cs_done c = false /\
+  length (cs_ns c) = 29 /\ is_compact_ns (cs_ns c) = true /\
+  sb_compact (cs_b c) = true /\ sb_first (cs_b c) = Nat.eqb j 0 /\
+  length (cs_shares c) = j /\
+  coff j <= L <= coff j + ccap j /\
+  length (sb_raw (cs_b c)) = chdr j + (L - coff j).
+
+(* what the write path never touches *)
+Definition meta (c d : csplitter) : Prop :=
+  cs_ns d = cs_ns c /\ cs_ver d = cs_ver c /\ cs_ranges d = cs_ranges c.
+
+Lemma meta_refl c : meta c c.
+Proof. repeat split. Qed.
+Lemma meta_trans a b c : meta a b -> meta b c -> meta a c.
+Proof. intros (A1 & A2 & A3) (B1 & B2 & B3). unfold meta. repeat split; congruence. Qed.
+
+Lemma chdr_ccap j : chdr j + ccap j = 512.
+Proof. destruct j; reflexivity. Qed.
+
+Lemma stack_pending_sinv c d j L : sinv c j L -> cs_stack_pending c = Ok d ->
+  L = coff j + ccap j /\ sinv d (S j) L /\ meta c d.
+Proof.
+  intros (Hd & Hn & Hc & Hbc & Hf & Hs & HL & Hr). unfold cs_stack_pending, sb_build, wf_shareb, share_size.
+  destruct (Nat.eqb (length (sb_raw (cs_b c))) 512) eqn:E; cbn [bind]; try discriminate.
+  apply Nat.eqb_eq in E. pose proof (chdr_ccap j) as Hcc.
+  assert (HL' : L = coff j + ccap j) by lia.
+  unfold new_builder. destruct (new_info_byte (cs_ver c) false) as [info| |]; cbn [bind]; try discriminate.
+  intros H. inversion H. split; [exact HL'|]. split; [|repeat split].
+  unfold sinv, cs_with. cbn [cs_done cs_ns cs_shares cs_b sb_compact sb_first sb_raw].
+  rewrite Hc, coff_S, app_length, !app_length, Hn, Hs. cbn [length]. rewrite length_zeros.
+  repeat split; try assumption; try lia.
+  unfold chdr. lia.
+Qed.
+
+Lemma write_loop_sinv : forall f c data d j L, sinv c j L -> cs_write_loop f c data = Ok d ->
+  exists j', sinv d j' (L + length data) /\ meta c d.
+Proof.
+  induction f as [|f IH]; intros c data d j L Hi; [discriminate|]. cbn [cs_write_loop].
+  destruct Hi as (Hd & Hn & Hc & Hbc & Hf & Hs & HL & Hr).
+  pose proof (chdr_ccap j) as Hcc.
+  unfold sb_add_data, sb_available, share_size.
+  destruct (Nat.leb (length data) (512 - length (sb_raw (cs_b c)))) eqn:E.
+  - intros H. inversion H. subst d. exists j. split; [|repeat split].
+    unfold sinv, cs_with, sb_with_raw. cbn [cs_done cs_ns cs_shares cs_b sb_compact sb_first sb_raw].
+    rewrite app_length. apply Nat.leb_le in E. repeat split; try assumption; lia.
+  - apply Nat.leb_gt in E.
+    set (left := 512 - length (sb_raw (cs_b c))) in *.
+    set (c1 := cs_with c (cs_shares c) (sb_with_raw (cs_b c) (sb_raw (cs_b c) ++ firstn left data)) (cs_done c)).
+    assert (H1 : sinv c1 j (L + left)).
+    { unfold sinv, c1, cs_with, sb_with_raw. cbn [cs_done cs_ns cs_shares cs_b sb_compact sb_first sb_raw].
+      rewrite app_length, firstn_length. repeat split; try assumption; lia. }
+    destruct (cs_stack_pending c1) as [c2| |] eqn:E2; cbn [bind]; try discriminate.
+    destruct (stack_pending_sinv _ _ _ _ H1 E2) as (_ & H2 & M2).
+    intros H. destruct (IH _ _ _ _ _ H2 H) as (j' & H3 & M3). exists j'. split.
+    + rewrite skipn_length in H3. replace (L + length data) with (L + left + (length data - left)) by lia.
+      exact H3.
+    + eapply meta_trans; [|exact M3]. eapply meta_trans; [|exact M2]. repeat split.
+Qed.
+
+Lemma maybe_write_reserved_same b b1 : sb_maybe_write_reserved b = Ok b1 ->
+  length (sb_raw b1) = length (sb_raw b) /\ sb_compact b1 = sb_compact b /\ sb_first b1 = sb_first b.
+Proof.
+  unfold sb_maybe_write_reserved. destruct (negb (sb_compact b)); [discriminate|].
+  destruct (Nat.ltb (length (sb_raw b)) (sb_reserved_index b + 4)) eqn:E; [discriminate|].
+  destruct (parse_reserved_bytes _) as [r| |]; cbn [bind]; try discriminate.
+  destruct (negb (N.eqb r 0)); [intros H; inversion H; repeat split|].
+  destruct (N.leb 512 (lenN (sb_raw b))); [discriminate|].
+  intros H. inversion H. cbn [sb_with_raw sb_raw sb_compact sb_first]. split; [|split; reflexivity].
+  apply Nat.ltb_ge in E. unfold set_at. rewrite !app_length, firstn_length, skipn_length, length_be32. lia.
+Qed.
+
+(* between writes the pending share is never full: j = sidx L *)
+Definition sinv_strict (c : csplitter) (L : nat) : Prop := sinv c (sidx L) L.
+
+Lemma sinv_to_strict c j L : sinv c j L -> L < coff j + ccap j -> sinv_strict c L.
+Proof.
+  intros H HL. unfold sinv_strict. replace (sidx L) with j; [exact H|].
+  apply sidx_unique. destruct H as (_ & _ & _ & _ & _ & _ & H & _). lia.
+Qed.
+
+Lemma cs_write_sinv c data d L : sinv_strict c L -> cs_write c data = Ok d ->
+  sinv_strict d (L + length data) /\ meta c d.
+Proof.
+  intros Hi. unfold cs_write.
+  assert (Hd : cs_done c = false) by apply Hi. rewrite Hd.
+  destruct (sb_maybe_write_reserved (cs_b c)) as [b1| |] eqn:E; cbn [bind]; try discriminate.
+  destruct (maybe_write_reserved_same _ _ E) as (R1 & R2 & R3).
+  assert (H0 : sinv (cs_with c (cs_shares c) b1 false) (sidx L) L).
+  { destruct Hi as (_ & Hn & Hc & Hbc & Hf & Hs & HL & Hr).
+    unfold sinv, cs_with. cbn [cs_done cs_ns cs_shares cs_b]. rewrite R1, R2, R3.
+    repeat split; try assumption; lia. }
+  destruct (cs_write_loop _ _ _) as [c1| |] eqn:E1; cbn [bind]; try discriminate.
+  destruct (write_loop_sinv _ _ _ _ _ _ H0 E1) as (j' & H1 & M1).
+  assert (M0 : meta c c1) by (eapply meta_trans; [|exact M1]; repeat split).
+  unfold sb_available, share_size.
+  destruct (Nat.eqb (512 - length (sb_raw (cs_b c1))) 0) eqn:E2.
+  - intros H. destruct (stack_pending_sinv _ _ _ _ H1 H) as (HL & H2 & M2). split.
+    + eapply sinv_to_strict; [exact H2|]. rewrite coff_S. rewrite HL. unfold ccap. lia.
+    + eapply meta_trans; eassumption.
+  - intros H. inversion H. subst d. split; [|exact M0].
+    eapply sinv_to_strict; [exact H1|]. apply Nat.eqb_neq in E2.
+    destruct H1 as (_ & _ & _ & _ & _ & _ & HL & Hr). pose proof (chdr_ccap j'). lia.
+Qed.
+
+(* Count of a splitter holding L stream bytes *)
+Lemma cneeded_coff L : cneeded L = if Nat.eqb L (coff (sidx L)) then sidx L else sidx L + 1.
+Proof.
+  pose proof (sidx_bounds L) as HB.
+  destruct (Nat.eqb L (coff (sidx L))) eqn:E.
+  - apply Nat.eqb_eq in E. destruct (Nat.eq_dec L 0) as [->|Hn]; [reflexivity|].
+    rewrite cneeded_sidx by lia. destruct (sidx L) as [|k] eqn:Ek; [unfold coff in E; lia|].
+    assert (Hk : k = sidx (L - 1)); [|lia].
+    apply sidx_unique. rewrite E. destruct k; unfold coff, ccap; lia.
+  - apply Nat.eqb_neq in E. rewrite cneeded_sidx by lia.
+    assert (Hk : sidx L = sidx (L - 1)); [|lia]. apply sidx_unique. lia.
+Qed.
+
+Lemma cs_count_sinv c L : sinv_strict c L -> cs_count c = N.of_nat (cneeded L).
+Proof.
+  intros (Hd & Hn & Hc & Hbc & Hf & Hs & HL & Hr). unfold cs_count, sb_is_empty, lenN.
+  rewrite Hd, Hbc, Hf, Hr, Hs, cneeded_coff. cbn [negb addif andb].
+  rewrite andb_true_r.
+  destruct (Nat.eqb L (coff (sidx L))) eqn:E.
+  - apply Nat.eqb_eq in E.
+    replace (Nat.eqb _ _) with true; [reflexivity|]. symmetry. apply Nat.eqb_eq.
+    destruct (Nat.eqb (sidx L) 0) eqn:E0; [apply Nat.eqb_eq in E0; rewrite E0 in *|];
+      destruct (sidx L); unfold chdr, addif; try discriminate; lia.
+  - apply Nat.eqb_neq in E.
+    replace (Nat.eqb _ _) with false; [cbn [negb]; lia|]. symmetry. apply Nat.eqb_neq.
+    destruct (Nat.eqb (sidx L) 0) eqn:E0; [apply Nat.eqb_eq in E0; rewrite E0 in *|];
+      destruct (sidx L); unfold chdr, addif; try discriminate; lia.
+Qed.
+
+(* the ranges a splitter holding L stream bytes records for the next transactions *)
+Fixpoint ranges_from (L : nat) (txs : list bytes) : list (bytes * (N * N)) :=
+  match txs with
+  | [] => []
+  | t :: tl =>
+    let e := L + length (marshal_delimited t) in
+    (t, (N.of_nat (sidx L), N.of_nat (sidx (e - 1) + 1))) :: ranges_from e tl
+  end.
+
+Lemma cs_write_tx_sinv c tx d L : sinv_strict c L -> cs_write_tx c tx = Ok d ->
+  let e := L + length (marshal_delimited tx) in
+  sinv_strict d e /\
+  cs_ranges d = (tx, (N.of_nat (sidx L), N.of_nat (sidx (e - 1) + 1))) :: cs_ranges c.
+Proof.
+  intros Hi. cbn zeta. unfold cs_write_tx.
+  assert (Hd : cs_done c = false) by apply Hi. rewrite Hd. cbn [andb].
+  destruct (cs_write c (marshal_delimited tx)) as [c1| |] eqn:E; cbn [bind]; try discriminate.
+  destruct (cs_write_sinv _ _ _ _ Hi E) as (H1 & _ & _ & M).
+  intros H. inversion H. cbn [cs_ranges]. split.
+  - exact H1.
+  - rewrite M, (cs_count_sinv _ _ H1). unfold lenN.
+    assert (Hs : length (cs_shares c) = sidx L) by apply Hi. rewrite Hs.
+    rewrite cneeded_sidx by (pose proof (marshal_delimited_pos tx); lia). reflexivity.
+Qed.
+
+Lemma write_txs_sinv : forall txs c d L, sinv_strict c L -> write_txs c txs = Ok d ->
+  sinv_strict d (L + length (stream txs)) /\
+  cs_ranges d = rev (ranges_from L txs) ++ cs_ranges c.
+Proof.
+  induction txs as [|t tl IH]; intros c d L Hi; cbn [write_txs].
+  - intros H. inversion H. subst d. rewrite stream_nil. cbn [length ranges_from rev app].
+    rewrite Nat.add_0_r. split; [exact Hi|reflexivity].
+  - destruct (cs_write_tx c t) as [c1| |] eqn:E; cbn [bind]; try discriminate.
+    destruct (cs_write_tx_sinv _ _ _ _ Hi E) as (H1 & R1). intros H.
+    destruct (IH _ _ _ H1 H) as (H2 & R2). split.
+    + rewrite stream_cons, app_length, Nat.add_assoc. exact H2.
+    + rewrite R2, R1. cbn [ranges_from rev]. rewrite <- app_assoc. reflexivity.
+Qed.
+
+Lemma new_csplitter_sinv ns ver c0 : ns = tx_ns \/ ns = pfb_ns -> new_csplitter ns ver = Ok c0 ->
+  sinv_strict c0 0 /\ cs_ranges c0 = [].
+Proof.
+  intros Hns. unfold new_csplitter, new_builder.
+  destruct (new_info_byte ver true) as [info| |]; cbn [bind]; try discriminate.
+  intros H. inversion H. split; [|reflexivity].
+  unfold sinv_strict, sinv. cbn [cs_done cs_ns cs_shares cs_b sb_compact sb_first sb_raw].
+  assert (Hc : is_compact_ns ns = true) by (destruct Hns; subst ns; reflexivity).
+  assert (Hl : length ns = 29) by (destruct Hns; subst ns; reflexivity).
+  rewrite Hc, !app_length, Hl. cbn [length]. rewrite !length_zeros.
+  change (sidx 0) with 0. unfold coff, ccap, chdr. repeat split; lia.
+Qed.
+
+Lemma ranges_from_app : forall a b L,
+  ranges_from L (a ++ b) = ranges_from L a ++ ranges_from (L + length (stream a)) b.
+Proof.
+  induction a as [|t a IH]; intros b L.
+  - rewrite stream_nil. cbn [app ranges_from length]. rewrite Nat.add_0_r. reflexivity.
+  - cbn [app ranges_from]. rewrite IH, stream_cons, app_length, Nat.add_assoc. reflexivity.
+Qed.
+
+Lemma map_fst_ranges_from : forall txs L, map fst (ranges_from L txs) = txs.
+Proof.
+  induction txs as [|t tl IH]; intros L; cbn [ranges_from map fst]; [reflexivity|].
+  rewrite IH. reflexivity.
+Qed.
+
+Lemma assoc_bytes_app_notin {A} k (l1 l2 : list (bytes * A)) : ~ In k (map fst l1) ->
+  assoc_bytes k (l1 ++ l2) = assoc_bytes k l2.
+Proof.
+  induction l1 as [|[k' v] l1 IH]; intros Hn; [reflexivity|]. cbn [app assoc_bytes].
+  cbn [map fst In] in Hn. destruct (bytes_eqb k k') eqn:E.
+  - apply bytes_eqb_eq in E. subst. tauto.
+  - apply IH. tauto.
+Qed.
+
+Lemma split_at_nth {A} (l : list A) k x : nth_error l k = Some x ->
+  l = firstn k l ++ x :: skipn (S k) l.
+Proof.
+  intros H. rewrite <- (firstn_skipn (S k) l) at 1.
+  rewrite (firstn_S_nth_error _ _ _ H), <- app_assoc. reflexivity.
+Qed.
+
+Lemma assoc_ranges_last a t b L : ~ In t b ->
+  assoc_bytes t (rev (ranges_from L (a ++ t :: b))) =
+  Some (N.of_nat (sidx (L + length (stream a))),
+        N.of_nat (sidx (L + length (stream a) + length (marshal_delimited t) - 1) + 1)).
+Proof.
+  intros Hn. rewrite ranges_from_app. cbn [ranges_from]. rewrite rev_app_distr. cbn [rev].
+  rewrite <- !app_assoc. rewrite assoc_bytes_app_notin.
+  - cbn [app assoc_bytes]. rewrite bytes_eqb_refl. reflexivity.
+  - rewrite map_rev, map_fst_ranges_from, <- in_rev. exact Hn.
+Qed.
+
+(* Part 3.  After writing txs into a fresh compact splitter: the complete list of
+   recorded ranges, Count, and the number of completely filled shares. *)
+Theorem splitter_ranges_exact ns ver c0 txs c :
+  ns = tx_ns \/ ns = pfb_ns -> new_csplitter ns ver = Ok c0 -> write_txs c0 txs = Ok c ->
+  cs_ranges c = rev (ranges_from 0 txs) /\
+  cs_count c = N.of_nat (cneeded (length (stream txs))) /\
+  lenN (cs_shares c) = N.of_nat (sidx (length (stream txs))).
+Proof.
+  intros Hns H0 Hw. destruct (new_csplitter_sinv _ _ _ Hns H0) as (Hi & Hr).
+  destruct (write_txs_sinv _ _ _ _ Hi Hw) as (H1 & R). cbn [Nat.add] in H1.
+  split; [rewrite R, Hr, app_nil_r; reflexivity|]. split; [apply cs_count_sinv; exact H1|].
+  unfold lenN. f_equal. apply H1.
+Qed.
+
+(* ShareRanges(offset) looked up at a transaction whose last occurrence is at position k
+   (in particular: any position of a duplicate-free list) is the exact range of unit k *)
+Theorem splitter_share_range_exact ns ver c0 txs c k t offset :
+  ns = tx_ns \/ ns = pfb_ns -> new_csplitter ns ver = Ok c0 -> write_txs c0 txs = Ok c ->
+  nth_error txs k = Some t -> ~ In t (skipn (S k) txs) ->
+  cs_share_range c offset t =
+  Some (N.of_nat (fst (unit_range txs k)) + offset, N.of_nat (snd (unit_range txs k)) + offset)%N.
+Proof.
+  intros Hns H0 Hw Hk Hlast.
+  destruct (splitter_ranges_exact _ _ _ _ _ Hns H0 Hw) as (R & _).
+  pose proof (assoc_ranges_last (firstn k txs) t (skipn (S k) txs) 0 Hlast) as HA.
+  rewrite <- (split_at_nth _ _ _ Hk) in HA. cbn [Nat.add] in HA.
+  unfold cs_share_range. rewrite R, HA. unfold unit_range. cbn [fst snd].
+  rewrite (uend_nth _ _ _ Hk). reflexivity.
+Qed.
+
+Lemma NoDup_last_occurrence {A} (l : list A) k x : NoDup l -> nth_error l k = Some x ->
+  ~ In x (skipn (S k) l).
+Proof.
+  intros Hnd Hk Hin. rewrite (split_at_nth _ _ _ Hk) in Hnd.
+  apply NoDup_remove_2 in Hnd. apply Hnd. apply in_or_app. right. exact Hin.
+Qed.
+
+Corollary splitter_share_range_distinct ns ver c0 txs c k t offset :
+  ns = tx_ns \/ ns = pfb_ns -> new_csplitter ns ver = Ok c0 -> write_txs c0 txs = Ok c ->
+  NoDup txs -> nth_error txs k = Some t ->
+  cs_share_range c offset t =
+  Some (N.of_nat (fst (unit_range txs k)) + offset, N.of_nat (snd (unit_range txs k)) + offset)%N.
+Proof.
+  intros Hns H0 Hw Hnd Hk. eapply splitter_share_range_exact; try eassumption.
+  eapply NoDup_last_occurrence; eassumption.
+Qed.
+
+(* ---- 4. blob ranges ---- *)
+
+Lemma set_nth_len {A} (v : A) : forall l n, length (set_nth n v l) = length l.
+Proof. induction l as [|x l IH]; intros [|n]; cbn [set_nth length]; try reflexivity. rewrite IH. reflexivity. Qed.
+
+Lemma record_index_len pfbs pi bi cur pfbs' : record_index pfbs pi bi cur = Ok pfbs' ->
+  length pfbs' = length pfbs.
+Proof.
+  unfold record_index. destruct (nth_error pfbs (N.to_nat pi)) as [p|]; [|discriminate].
+  destruct (N.leb (lenN (pfb_idx p)) bi); [discriminate|].
+  intros H. inversion H. apply set_nth_len.
+Qed.
+
+Lemma export_blobs_len thr : forall els first st st', export_blobs thr first els st = Ok st' ->
+  length (bl_pfbs st') = length (bl_pfbs st).
+Proof.
+  induction els as [|e tl IH]; intros first st st'; cbn [export_blobs].
+  - intros H. inversion H. reflexivity.
+  - destruct (N.ltb (e_max_padding e) _); [discriminate|].
+    destruct (record_index _ _ _ _) as [pfbs| |] eqn:ER; cbn [bind]; try discriminate.
+    destruct (if first then _ else _) as [s1| |]; cbn [bind]; try discriminate.
+    destruct (sparse_write_item s1 _) as [s2| |]; cbn [bind]; try discriminate.
+    intros H. apply IH in H. cbn [bl_pfbs] in H. rewrite H. eapply record_index_len. exact ER.
+Qed.
+
+Lemma ensure_done_same b b1 : ensure_done b = Ok b1 ->
+  bd_txs b1 = bd_txs b /\ length (bd_pfbs b1) = length (bd_pfbs b).
+Proof.
+  unfold ensure_done. destruct (bd_done b); [intros H; inversion H; split; reflexivity|].
+  destruct (export b) as [[b' sq]| |] eqn:E; cbn [bind fst]; try discriminate.
+  intros H. inversion H. subst b'. unfold export in E. destruct (builder_is_empty b).
+  - destruct empty_square; cbn [bind] in E; try discriminate. inversion E. split; reflexivity.
+  - destruct (new_csplitter tx_ns 0) as [txw0| |]; cbn [bind] in E; try discriminate.
+    destruct (write_txs txw0 (bd_txs b)) as [txw| |]; cbn [bind] in E; try discriminate.
+    destruct (export_blobs _ _ _ _) as [st| |] eqn:EB; cbn [bind] in E; try discriminate.
+    destruct (new_csplitter pfb_ns 0) as [pfbw0| |]; cbn [bind] in E; try discriminate.
+    destruct (write_txs pfbw0 _) as [pfbw| |]; cbn [bind] in E; try discriminate.
+    destruct (_ <? _)%Z; [discriminate|].
+    destruct (write_square _ _ _ _ _) as [sq0| |]; cbn [bind] in E; try discriminate.
+    inversion E. cbn [bd_txs bd_pfbs]. split; [reflexivity|].
+    apply export_blobs_len in EB. exact EB.
+Qed.
+
+(* the element of blob (pi', bi) as BlobShareLength looks it up *)
+Definition find_element (b : builder) (pi' bi : Z) : option element :=
+  find (fun e => Z.eqb (Z.of_N (e_pfb_index e)) pi' && Z.eqb (Z.of_N (e_blob_index e)) bi) (bd_blobs b).
+
+(* Part 4: a complete functional description of square.BlobShareRange.  b1 is the
+   exported builder: its PFBs carry the recorded share indexes, and the range is
+   [recorded index, recorded index + number of shares of the blob). *)
+Theorem blob_share_range_eq txs ti bi max thr :
+  blob_share_range txs ti bi max thr =
+  do b <- new_builder_txs max thr txs;
+  let ntx := Z.of_nat (length (bd_txs b)) in
+  if ((ti <? ntx) || (ntx + Z.of_nat (length (bd_pfbs b)) <=? ti) || (bi <? 0))%Z then Err else
+  do b1 <- ensure_done b;
+  match nth_error (bd_pfbs b1) (Z.to_nat (ti - ntx)) with
+  | None => Fault
+  | Some p =>
+    match nth_error (pfb_idx p) (Z.to_nat bi) with
+    | None => Err
+    | Some i =>
+      match find_element b1 (ti - ntx) bi with
+      | None => Err
+      | Some el => Ok (i, (i + e_num_shares el)%N)
+      end
+    end
+  end.
+Proof.
+  unfold blob_share_range. destruct (new_builder_txs max thr txs) as [b| |]; cbn [bind]; try reflexivity.
+  cbn zeta. unfold find_blob_starting_index. fold (ensure_done b). unfold lenN. rewrite !nat_N_Z.
+  destruct (ti <? Z.of_nat (length (bd_txs b)))%Z eqn:E1; cbn [orb bind]; [reflexivity|].
+  replace (Z.of_nat (length (bd_pfbs b)) <=? ti - Z.of_nat (length (bd_txs b)))%Z
+    with (Z.of_nat (length (bd_txs b)) + Z.of_nat (length (bd_pfbs b)) <=? ti)%Z by lia.
+  destruct (Z.of_nat (length (bd_txs b)) + Z.of_nat (length (bd_pfbs b)) <=? ti)%Z eqn:E2;
+    cbn [orb bind]; [reflexivity|].
+  destruct (bi <? 0)%Z eqn:E3; cbn [bind]; [reflexivity|].
+  destruct (ensure_done b) as [b1| |] eqn:ED; cbn [bind]; try reflexivity.
+  destruct (ensure_done_same _ _ ED) as (S1 & S2).
+  destruct (nth_error (bd_pfbs b1) _) as [p|]; cbn [bind]; [|reflexivity].
+  destruct (nth_error (pfb_idx p) (Z.to_nat bi)) as [i|]; cbn [bind]; [|reflexivity].
+  unfold blob_share_length, lenN. rewrite !nat_N_Z, S1, S2, E1. 
+  replace (Z.of_nat (length (bd_pfbs b)) <=? ti - Z.of_nat (length (bd_txs b)))%Z with false by lia.
+  rewrite E3. unfold find_element.
+  destruct (find _ (bd_blobs b1)) as [el|]; reflexivity.
+Qed.
+
+Corollary blob_share_range_err txs ti bi max thr b : new_builder_txs max thr txs = Ok b ->
+  (ti < Z.of_nat (length (bd_txs b)) \/
+   Z.of_nat (length (bd_txs b) + length (bd_pfbs b)) <= ti \/ bi < 0)%Z ->
+  blob_share_range txs ti bi max thr = Err.
+Proof.
+  intros Hb H. rewrite blob_share_range_eq, Hb. cbn [bind]. cbn zeta.
+  destruct (ti <? Z.of_nat (length (bd_txs b)))%Z eqn:E1; [reflexivity|].
+  destruct (Z.of_nat (length (bd_txs b)) + Z.of_nat (length (bd_pfbs b)) <=? ti)%Z eqn:E2; [reflexivity|].
+  destruct (bi <? 0)%Z eqn:E3; [reflexivity|]. lia.
+Qed.
+
+Corollary blob_share_range_ok txs ti bi max thr b b1 p i el :
+  new_builder_txs max thr txs = Ok b -> ensure_done b = Ok b1 ->
+  (Z.of_nat (length (bd_txs b)) <= ti)%Z -> (0 <= bi)%Z ->
+  nth_error (bd_pfbs b1) (Z.to_nat ti - length (bd_txs b)) = Some p ->
+  nth_error (pfb_idx p) (Z.to_nat bi) = Some i ->
+  find_element b1 (ti - Z.of_nat (length (bd_txs b))) bi = Some el ->
+  blob_share_range txs ti bi max thr = Ok (i, (i + e_num_shares el)%N).
+Proof.
+  intros Hb Hd H1 H2 Hp Hi He. rewrite blob_share_range_eq, Hb. cbn [bind]. cbn zeta.
+  destruct (ensure_done_same _ _ Hd) as (_ & S2).
+  assert (Hlt : Z.to_nat ti - length (bd_txs b) < length (bd_pfbs b1))
+    by (apply nth_error_Some; congruence).
+  replace (ti <? Z.of_nat (length (bd_txs b)))%Z with false by lia.
+  replace (Z.of_nat (length (bd_txs b)) + Z.of_nat (length (bd_pfbs b)) <=? ti)%Z with false by lia.
+  replace (bi <? 0)%Z with false by lia. cbn [orb]. rewrite Hd. cbn [bind].
+  replace (Z.to_nat (ti - Z.of_nat (length (bd_txs b)))) with (Z.to_nat ti - length (bd_txs b)) by lia.
+  rewrite Hp, Hi, He. reflexivity.
+Qed.
+
+(* blob index too large for that PFB *)
+Corollary blob_share_range_err_blob txs ti bi max thr b b1 p :
+  new_builder_txs max thr txs = Ok b -> ensure_done b = Ok b1 ->
+  nth_error (bd_pfbs b1) (Z.to_nat ti - length (bd_txs b)) = Some p ->
+  (Z.of_nat (length (pfb_idx p)) <= bi)%Z ->
+  blob_share_range txs ti bi max thr = Err.
+Proof.
+  intros Hb Hd Hp Hbi. rewrite blob_share_range_eq, Hb. cbn [bind]. cbn zeta.
+  destruct (_ || _ || _)%bool; [reflexivity|]. rewrite Hd. cbn [bind].
+  replace (Z.to_nat (ti - Z.of_nat (length (bd_txs b)))) with (Z.to_nat ti - length (bd_txs b)) by lia.
+  rewrite Hp. replace (nth_error (pfb_idx p) (Z.to_nat bi)) with (@None N); [reflexivity|].
+  symmetry. apply nth_error_None. lia.
+Qed.
+
+(* a Fault can only come out of construction or Export *)
+Corollary blob_share_range_no_fault txs ti bi max thr :
+  blob_share_range txs ti bi max thr = Fault ->
+  new_builder_txs max thr txs = Fault \/
+  exists b, new_builder_txs max thr txs = Ok b /\ ensure_done b = Fault.
+Proof.
+  rewrite blob_share_range_eq. destruct (new_builder_txs max thr txs) as [b| |]; cbn [bind]; try discriminate; [|auto].
+  cbn zeta. destruct (_ || _ || _)%bool eqn:E; [discriminate|].
+  destruct (ensure_done b) as [b1| |] eqn:ED; cbn [bind]; try discriminate; [|eauto].
+  destruct (ensure_done_same _ _ ED) as (_ & S2).
+  destruct (nth_error_Some_lt (bd_pfbs b1) (Z.to_nat (ti - Z.of_nat (length (bd_txs b))))) as (p & ->); [lia|].
+  destruct (nth_error (pfb_idx p) _); [|discriminate].
+  destruct (find_element _ _ _); discriminate.
+Qed.
+
+(* ---- 5. the unit lies inside its range ---- *)
+
+Lemma stream_firstn_le txs n : length (stream (firstn n txs)) <= length (stream txs).
+Proof.
+  rewrite <- (firstn_skipn n txs) at 2. rewrite stream_app, app_length. lia.
+Qed.
+
+(* unit k begins inside its range and is complete within it; the range is non-empty and
+   inside the sequence *)
+Theorem unit_inside_range txs k t : nth_error txs k = Some t ->
+  let lo := fst (unit_range txs k) in
+  let hi := snd (unit_range txs k) in
+  coff lo <= ustart txs k /\ ustart txs k < uend txs k /\ uend txs k <= coff hi /\
+  lo < hi <= cneeded (length (stream txs)) /\ uend txs k <= length (stream txs).
+Proof.
+  intros Hk. cbn zeta. unfold unit_range. cbn [fst snd].
+  pose proof (uend_nth _ _ _ Hk) as He. pose proof (marshal_delimited_pos t) as Hp.
+  pose proof (sidx_bounds (ustart txs k)) as B1. pose proof (sidx_bounds (uend txs k - 1)) as B2.
+  pose proof (sidx_mono (ustart txs k) (uend txs k - 1)) as M.
+  assert (HU : uend txs k <= length (stream txs)) by apply stream_firstn_le.
+  replace (sidx (uend txs k - 1) + 1) with (S (sidx (uend txs k - 1))) by lia. rewrite coff_S.
+  repeat split; try lia.
+  rewrite (cneeded_sidx (length (stream txs))) by lia.
+  pose proof (sidx_mono (uend txs k - 1) (length (stream txs) - 1)). lia.
+Qed.
+
+(* exactness: the range of unit k is precisely the set of shares carrying one of its bytes *)
+Theorem unit_range_exact txs k t j : nth_error txs k = Some t ->
+  (exists p, ustart txs k <= p < uend txs k /\ coff j <= p < coff j + ccap j) <->
+  fst (unit_range txs k) <= j < snd (unit_range txs k).
+Proof.
+  intros Hk. apply share_set_exact.
+  pose proof (uend_nth _ _ _ Hk). pose proof (marshal_delimited_pos t). lia.
+Qed.
+
+(* and the bytes of the stream in [ustart, uend) are the delimited transaction *)
+Lemma unit_bytes txs k t : nth_error txs k = Some t ->
+  firstn (uend txs k - ustart txs k) (skipn (ustart txs k) (stream txs)) = marshal_delimited t.
+Proof.
+  intros Hk. rewrite (uend_nth _ _ _ Hk). unfold ustart.
+  replace (stream txs) with (stream (firstn k txs ++ t :: skipn (S k) txs))
+    by (rewrite <- (split_at_nth _ _ _ Hk); reflexivity).
+  rewrite stream_app, stream_cons.
+  rewrite skipn_app, skipn_all, Nat.sub_diag, skipn_O. cbn [app].
+  replace (_ + _ - _) with (length (marshal_delimited t)) by lia.
+  rewrite firstn_app, Nat.sub_diag, firstn_O, firstn_all, app_nil_r. reflexivity.
+Qed.
+
+(* ---- 5'. parsing just the shares of the range yields the transaction ---- *)
+(* (uses C11, Proofs/SubrangeProofs.v, and the writer theorem of Proofs/CompactWriterProofs.v) *)
+
+Lemma ustart_cons x tl k : ustart (x :: tl) (S k) = length (marshal_delimited x) + ustart tl k.
+Proof. unfold ustart. rewrite firstn_cons, stream_cons, app_length. reflexivity. Qed.
+Lemma uend_cons x tl k : uend (x :: tl) (S k) = length (marshal_delimited x) + uend tl k.
+Proof. unfold uend. rewrite firstn_cons, stream_cons, app_length. reflexivity. Qed.
+
+Lemma sel_txs_In : forall txs k t a b off, nth_error txs k = Some t ->
+  a <= off + ustart txs k -> off + uend txs k <= b ->
+  In t (SubrangeProofs.sel_txs a b off txs).
+Proof.
+  induction txs as [|x tl IH]; intros k t a b off Hk Ha Hb; [destruct k; discriminate|].
+  rewrite SubrangeProofs.sel_cons. destruct k as [|k].
+  - cbn [nth_error] in Hk. inversion Hk. subst x.
+    unfold ustart in Ha. unfold uend in Hb. rewrite firstn_O, stream_nil in Ha.
+    rewrite firstn_cons, firstn_O, stream_cons, stream_nil, app_nil_r in Hb. cbn [length] in Ha.
+    replace (SubrangeProofs.in_range a b (t, off)) with true; [left; reflexivity|].
+    unfold SubrangeProofs.in_range. cbn [fst snd]. symmetry. apply andb_true_iff.
+    split; apply Nat.leb_le; lia.
+  - cbn [nth_error] in Hk. rewrite ustart_cons in Ha. rewrite uend_cons in Hb.
+    assert (In t (SubrangeProofs.sel_txs a b (off + length (marshal_delimited x)) tl))
+      by (apply (IH k); [exact Hk|lia|lia]).
+    destruct (SubrangeProofs.in_range a b (x, off)); [right|]; assumption.
+Qed.
+
+(* On the closed form of the sequence: parsing exactly the shares of the range of unit k
+   succeeds and the result contains transaction k. *)
+Theorem unit_parsed_from_range ns txs k t :
+  length ns = 29 -> is_compact_ns ns = true -> Forall (fun t => t <> []) txs ->
+  (lenN (stream txs) < 4294967296)%N -> nth_error txs k = Some t ->
+  let lo := fst (unit_range txs k) in
+  let hi := snd (unit_range txs k) in
+  exists res, parse_txs (firstn (hi - lo) (skipn lo (compact_spec_ix ns 0 txs))) = Ok res /\ In t res.
+Proof.
+  intros Hns Hc Hne Hb Hk. cbn zeta.
+  destruct (unit_inside_range _ _ _ Hk) as (A1 & A2 & A3 & A4 & A5).
+  exists (SubrangeProofs.sub_expected (fst (unit_range txs k)) (snd (unit_range txs k)) txs). split.
+  - apply SubrangeProofs.parse_subrange; try assumption.
+    unfold compact_spec_ix. cbv zeta. rewrite map_length, seq_length. lia.
+  - unfold SubrangeProofs.sub_expected. eapply sel_txs_In; [exact Hk| |]; cbn [Nat.add]; lia.
+Qed.
+
+(* The whole chain on the writer: write the transactions into a fresh splitter, export;
+   the splitter's own range of transaction k (its last occurrence) is the exact range, and
+   parsing exactly those exported shares yields a list containing the transaction. *)
+Theorem splitter_range_parses ns txs k t :
+  ns = tx_ns \/ ns = pfb_ns -> Forall (fun t => t <> []) txs ->
+  (lenN (stream txs) < 4294967296)%N -> nth_error txs k = Some t -> ~ In t (skipn (S k) txs) ->
+  exists c0 c c' shs lo hi res,
+    new_csplitter ns 0 = Ok c0 /\ write_txs c0 txs = Ok c /\ cs_export c = Ok (c', shs) /\
+    cs_share_range c 0 t = Some (N.of_nat lo, N.of_nat hi) /\
+    (lo, hi) = unit_range txs k /\
+    parse_txs (firstn (hi - lo) (skipn lo shs)) = Ok res /\ In t res.
+Proof.
+  intros Hns Hne Hb Hk Hlast.
+  assert (Hl : length ns = 29) by (destruct Hns; subst ns; reflexivity).
+  assert (Hc : is_compact_ns ns = true) by (destruct Hns; subst ns; reflexivity).
+  destruct (CompactWriterProofs.compact_encode_spec ns 0 txs Hl Hc) as (c0 & c & c' & H0 & Hw & He & _); [lia|].
+  destruct (unit_parsed_from_range ns txs k t Hl Hc Hne Hb Hk) as (res & Hp & Hin).
+  exists c0, c, c', (compact_spec_ix ns 0 txs), (fst (unit_range txs k)), (snd (unit_range txs k)), res.
+  repeat split; try assumption.
+  rewrite (splitter_share_range_exact _ _ _ _ _ _ _ 0%N Hns H0 Hw Hk Hlast). rewrite !N.add_0_r. reflexivity.
+Qed.
+
+(* ---- non-vacuity: concrete instances (checked by vm_compute) ---- *)
+(* 472 data bytes = 474 delimited: ends exactly at the end of share 0; 476 data bytes =
+   478 delimited: ends exactly at the end of share 1; so the second and the third
+   transaction start with remainder 0.  The first wrapped PFB has 472 bytes with its real
+   share index (one varint byte) and 474 with the worst-case index (three): it fills the
+   first PFB share exactly, so the second PFB starts with remainder 0 as well. *)
+Definition ex12_t472 : bytes := repeat Byte.x07 472.
+Definition ex12_t476 : bytes := repeat Byte.x06 476.
+Definition ex12_t10 : bytes := repeat Byte.x08 10.
+Definition ex12_t11 : bytes := repeat Byte.x08 11.
+Definition ex12_t1000 : bytes := repeat Byte.x09 1000.
+Definition ex12_ns : bytes := Byte.x00 :: repeat Byte.x00 18 ++ repeat Byte.x01 10.
+Definition ex12_blob : blob := mk_blob ex12_ns (repeat Byte.x09 1000) 0 None.
+Definition ex12_btx1 : bytes :=
+  match marshal_blob_tx (repeat Byte.x0b 460) [ex12_blob] with Ok e => e | _ => [] end.
+Definition ex12_btx2 : bytes :=
+  match marshal_blob_tx [Byte.x0a; Byte.x0b] [ex12_blob; ex12_blob] with Ok e => e | _ => [] end.
+Definition ex12_normal : list bytes := [ex12_t472; ex12_t476; ex12_t10; ex12_t1000; ex12_t11].
+Definition ex12_txs : list bytes := ex12_normal ++ [ex12_btx1; ex12_btx2].
+
+Example ex12_offsets :
+  map (ustart ex12_normal) [0; 1; 2; 3; 4] = [0; 474; 952; 963; 1965] /\
+  map (uend ex12_normal) [0; 1; 2; 3; 4] = [474; 952; 963; 1965; 1977] /\
+  map (unit_range ex12_normal) [0; 1; 2; 3; 4] = [(0, 1); (1, 2); (2, 3); (2, 5); (4, 5)].
+Proof. repeat split; vm_compute; reflexivity. Qed.
+
+Example ex12_tx_share_range :
+  map (fun i => tx_share_range ex12_txs i 8 64) [-1; 0; 1; 2; 3; 4; 5; 6; 7]%Z =
+  [Err; Ok (0, 1); Ok (1, 2); Ok (2, 3); Ok (2, 5); Ok (4, 5); Ok (5, 6); Ok (6, 7); Err]%Z.
+Proof. vm_compute. reflexivity. Qed.
+
+Example ex12_builder :
+  match new_builder_txs 8 64 ex12_txs with
+  | Ok b =>
+    match ensure_done b with
+    | Ok b1 =>
+      bd_done b = false /\ bd_done b1 = true /\
+      map pfb_idx (bd_pfbs b) = [[16384]; [16384; 16384]]%N /\
+      map pfb_idx (bd_pfbs b1) = [[7]; [10; 13]]%N /\
+      map (@length byte) (wrapped (bd_pfbs b)) = [474; 18] /\
+      map (@length byte) (wrapped (bd_pfbs b1)) = [472; 14] /\
+      map (builder_tx_range b1) [0; 1; 2; 3; 4; 5; 6] =
+        [(0, 1); (1, 2); (2, 3); (2, 5); (4, 5); (5, 6); (6, 7)] /\
+      map (fun i => find_tx_share_range b1 i) [-1; 2; 6; 7]%Z =
+        [Err; Ok (b1, (2, 3)); Ok (b1, (6, 7)); Err]%Z
+    | _ => False
+    end
+  | _ => False
+  end.
+Proof. vm_compute. repeat split; reflexivity. Qed.
+
+Example ex12_blob_share_range :
+  map (fun p => blob_share_range ex12_txs (fst p) (snd p) 8 64)
+      [(5, 0); (6, 0); (6, 1); (6, 2); (4, 0); (7, 0); (5, -1); (-1, 0)]%Z =
+  [Ok (7, 10); Ok (10, 13); Ok (13, 16); Err; Err; Err; Err; Err]%N.
+Proof. vm_compute. reflexivity. Qed.
+
+Example ex12_splitter :
+  match new_csplitter tx_ns 0 with
+  | Ok c0 =>
+    match write_txs c0 (ex12_normal ++ [ex12_t10]) with
+    | Ok c =>
+      map snd (cs_ranges c) = [(4, 5); (4, 5); (2, 5); (2, 3); (1, 2); (0, 1)]%N /\
+      cs_count c = 5%N /\
+      (* a repeated transaction: the last write wins *)
+      cs_share_range c 7 ex12_t10 = Some (11, 12)%N /\
+      unit_range (ex12_normal ++ [ex12_t10]) 5 = (4, 5) /\
+      unit_range (ex12_normal ++ [ex12_t10]) 2 = (2, 3) /\
+      cs_share_range c 0 ex12_t1000 = Some (2, 5)%N
+    | _ => False
+    end
+  | _ => False
+  end.
+Proof. vm_compute. repeat split; reflexivity. Qed.
+
+Example ex12_parse_range :
+  NoDup ex12_normal /\ Forall (fun t => t <> []) ex12_normal /\
+  (lenN (stream ex12_normal) < 4294967296)%N /\
+  parse_txs (firstn (5 - 2) (skipn 2 (compact_spec_ix tx_ns 0 ex12_normal))) = Ok [ex12_t10; ex12_t1000; ex12_t11] /\
+  parse_txs (firstn (2 - 1) (skipn 1 (compact_spec_ix tx_ns 0 ex12_normal))) = Ok [ex12_t476].
+Proof.
+  split; [|split; [|split; [|split]]]; try (vm_compute; reflexivity).
+  - repeat constructor; cbn [In]; intros H;
+      repeat (destruct H as [H|H]; [apply (f_equal (@length byte)) in H; vm_compute in H; discriminate|]);
+      exact H.
+  - repeat constructor; intros H; apply (f_equal (@length byte)) in H; vm_compute in H; discriminate.
 Qed.
